@@ -266,6 +266,10 @@ func (s *DateMonthShard) getNumYearMonth(key interface{}) (int, error) {
 	case int:
 		tm := time.Unix(int64(val), 0)
 		dateStr := tm.Format(timeFormat)
+		if len(dateStr) != len(timeFormat) {
+			// a year outside 0000-9999 is not written with four digits
+			return -1, NewInvalidDateFormatKeyError(key)
+		}
 		s := dateStr[:4] + dateStr[5:7]
 		yearMonth, err := strconv.Atoi(s)
 		if err != nil {
@@ -275,6 +279,10 @@ func (s *DateMonthShard) getNumYearMonth(key interface{}) (int, error) {
 	case uint64:
 		tm := time.Unix(int64(val), 0)
 		dateStr := tm.Format(timeFormat)
+		if len(dateStr) != len(timeFormat) {
+			// a year outside 0000-9999 is not written with four digits
+			return -1, NewInvalidDateFormatKeyError(key)
+		}
 		s := dateStr[:4] + dateStr[5:7]
 		yearMonth, err := strconv.Atoi(s)
 		if err != nil {
@@ -284,6 +292,10 @@ func (s *DateMonthShard) getNumYearMonth(key interface{}) (int, error) {
 	case int64:
 		tm := time.Unix(val, 0)
 		dateStr := tm.Format(timeFormat)
+		if len(dateStr) != len(timeFormat) {
+			// a year outside 0000-9999 is not written with four digits
+			return -1, NewInvalidDateFormatKeyError(key)
+		}
 		s := dateStr[:4] + dateStr[5:7]
 		yearMonth, err := strconv.Atoi(s)
 		if err != nil {
@@ -327,6 +339,10 @@ func (s *DateDayShard) getNumYearMonthDay(key interface{}) (int, error) {
 	case int:
 		tm := time.Unix(int64(val), 0)
 		dateStr := tm.Format(timeFormat)
+		if len(dateStr) != len(timeFormat) {
+			// a year outside 0000-9999 is not written with four digits
+			return -1, NewInvalidDateFormatKeyError(key)
+		}
 		s := dateStr[:4] + dateStr[5:7] + dateStr[8:10]
 		yearMonthDay, err := strconv.Atoi(s)
 		if err != nil {
@@ -336,6 +352,10 @@ func (s *DateDayShard) getNumYearMonthDay(key interface{}) (int, error) {
 	case uint64:
 		tm := time.Unix(int64(val), 0)
 		dateStr := tm.Format(timeFormat)
+		if len(dateStr) != len(timeFormat) {
+			// a year outside 0000-9999 is not written with four digits
+			return -1, NewInvalidDateFormatKeyError(key)
+		}
 		s := dateStr[:4] + dateStr[5:7] + dateStr[8:10]
 		yearMonthDay, err := strconv.Atoi(s)
 		if err != nil {
@@ -345,6 +365,10 @@ func (s *DateDayShard) getNumYearMonthDay(key interface{}) (int, error) {
 	case int64:
 		tm := time.Unix(val, 0)
 		dateStr := tm.Format(timeFormat)
+		if len(dateStr) != len(timeFormat) {
+			// a year outside 0000-9999 is not written with four digits
+			return -1, NewInvalidDateFormatKeyError(key)
+		}
 		s := dateStr[:4] + dateStr[5:7] + dateStr[8:10]
 		yearMonthDay, err := strconv.Atoi(s)
 		if err != nil {
